@@ -45,6 +45,9 @@ pub struct Conn {
     pub peer: usize,
     pub kind: Kind,
     pub chunk: usize,
+    /// runtime turns this client waits before it connects (staggered arrivals within a group)
+    #[serde(default)]
+    pub delay: u32,
 }
 
 #[derive(Clone, Debug, Serialize, Deserialize)]
@@ -57,6 +60,10 @@ pub struct Plan {
     /// this many malformed / truncated connections, one after the other, before the groups
     #[serde(default)]
     pub bad_storm: u32,
+    /// this many extra series are registered first, so that one rendering takes long enough for
+    /// concurrent scrapes (rendered on the runtime's blocking pool, real threads) to overlap
+    #[serde(default)]
+    pub heavy: u32,
 }
 
 // ---- independent CIDR model ------------------------------------------------------------------
@@ -144,6 +151,9 @@ async fn turn() {
 /// `release`: a half-open connection is held open (nothing sent, nothing closed) until the other
 /// connections of its group have finished, so that whoever serves it is kept busy meanwhile.
 async fn peer_task(net: Arc<Net>, addr: SocketAddr, c: Conn, hits: Arc<AtomicU64>, port: u16, release: Arc<std::sync::atomic::AtomicBool>) -> Outcome {
+    for _ in 0..c.delay {
+        turn().await;
+    }
     let mut o = Outcome { hits_before: hits.load(Ordering::SeqCst), ..Default::default() };
     let peer = SocketAddr::new(PEER_POOL[c.peer].parse().unwrap(), port);
     let id = match net.peer_connect(addr, peer, 1 << 16) {
@@ -204,7 +214,8 @@ async fn peer_task(net: Arc<Net>, addr: SocketAddr, c: Conn, hits: Arc<AtomicU64
     if then == 0 {
         net.peer_close(id, false);
     }
-    o.hits_after = hits.load(Ordering::SeqCst);
+    // (the ticker increments the counter first and `hits` second: the counter is at most one ahead)
+    o.hits_after = hits.load(Ordering::SeqCst) + 1;
     o
 }
 
@@ -253,11 +264,12 @@ impl Scenario for C18Http {
                             _ => Kind::ResetAfterRequest,
                         },
                         chunk: *r.pick(&[1usize, 3, 7, 64, 100_000]),
+                        delay: *r.pick(&[0u32, 0, 0, 5, 40, 300]),
                     })
                     .collect()
             })
             .collect();
-        Plan { allow, groups, allow_first: r.chance(400), bad_storm: if r.chance(15) { 70 } else { 0 } }
+        Plan { allow, groups, allow_first: r.chance(400), bad_storm: if r.chance(15) { 70 } else { 0 }, heavy: if r.chance(60) { 3000 } else { 0 } }
     }
     fn execute(&self, plan: &Plan, sched: &SchedSpec) -> RunReport {
         let net = simnet::install(sched.faults.clone());
@@ -294,12 +306,15 @@ impl Scenario for C18Http {
                 let server = tokio::spawn(fut);
                 let hits = Arc::new(AtomicU64::new(0));
                 let counter = recorder.register_counter(&Key::from_name("c18_hits"), &MD);
+                for i in 0..p.heavy {
+                    recorder.register_gauge(&Key::from_parts("c18_filler", vec![metrics::Label::new("i", i.to_string())]), &MD).set(i as f64);
+                }
                 let mut all = vec![];
                 let mut port = 40_000u16;
                 // many connections that end badly, one after the other: none of them may cost the
                 // endpoint anything that later clients need
                 for i in 0..p.bad_storm {
-                    let c = Conn { peer: (0..PEER_POOL.len()).find(|x| model_allowed(&p.allow, *x)).unwrap_or(0), kind: if i % 2 == 0 { Kind::Garbage(1) } else { Kind::TruncatedHead }, chunk: 100_000 };
+                    let c = Conn { peer: (0..PEER_POOL.len()).find(|x| model_allowed(&p.allow, *x)).unwrap_or(0), kind: if i % 2 == 0 { Kind::Garbage(1) } else { Kind::TruncatedHead }, chunk: 100_000, delay: 0 };
                     let _ = peer_task(net2.clone(), addr, c, hits.clone(), 20_000 + i as u16, Arc::new(std::sync::atomic::AtomicBool::new(true))).await;
                 }
                 for g in &p.groups {
@@ -311,9 +326,25 @@ impl Scenario for C18Http {
                         port += 1;
                         tasks.push(Some(tokio::spawn(peer_task(net2.clone(), addr, c.clone(), hits.clone(), port, release.clone()))));
                     }
-                    // metrics keep changing while the group is being served
+                    // metrics keep changing while the group is being served: a ticker task bumps the
+                    // counter between the runtime's turns until the group's requests are through
                     counter.increment(1);
                     hits.fetch_add(1, Ordering::SeqCst);
+                    let ticking = Arc::new(std::sync::atomic::AtomicBool::new(true));
+                    let ticker = {
+                        let (ticking, counter, hits) = (ticking.clone(), counter.clone(), hits.clone());
+                        tokio::spawn(async move {
+                            let mut n = 0u32;
+                            while ticking.load(Ordering::SeqCst) && n < 200_000 {
+                                counter.increment(1);
+                                hits.fetch_add(1, Ordering::SeqCst);
+                                n += 1;
+                                for _ in 0..3 {
+                                    turn().await;
+                                }
+                            }
+                        })
+                    };
                     // half-open connections are released only when everybody else has been served
                     let mut outs: Vec<Option<Outcome>> = g.iter().map(|_| None).collect();
                     for pass in 0..2 {
@@ -324,14 +355,16 @@ impl Scenario for C18Http {
                             }
                         }
                         release.store(true, Ordering::SeqCst);
+                        ticking.store(false, Ordering::SeqCst);
                     }
+                    let _ = ticker.await;
                     all.push(outs.into_iter().map(|o| o.unwrap()).collect());
                 }
                 // after any prefix of bad connections a well-formed request from an allowed peer is answered
                 net2.faults.lock().unwrap().disable();
                 let probe_peer = (0..PEER_POOL.len()).find(|i| model_allowed(&p.allow, *i));
                 let probe = match probe_peer {
-                    Some(pp) => peer_task(net2.clone(), addr, Conn { peer: pp, kind: Kind::Get(0), chunk: 100_000 }, hits.clone(), 50_000, Arc::new(std::sync::atomic::AtomicBool::new(true))).await,
+                    Some(pp) => peer_task(net2.clone(), addr, Conn { peer: pp, kind: Kind::Get(0), chunk: 100_000, delay: 0 }, hits.clone(), 50_000, Arc::new(std::sync::atomic::AtomicBool::new(true))).await,
                     None => Outcome { responses: vec![(200, b"# no allowed peer in the pool\n".to_vec())], ..Default::default() },
                 };
                 server.abort();
@@ -437,6 +470,9 @@ impl Scenario for C18Http {
         }
         if p.allow_first {
             out.push(Plan { allow_first: false, ..p.clone() });
+        }
+        if p.heavy > 0 {
+            out.push(Plan { heavy: 0, ..p.clone() });
         }
         for i in 0..p.groups.len() {
             if p.groups.len() > 1 {
